@@ -121,6 +121,10 @@ Expected(c) ==
     numConn    |-> CASE c.NumConn \in {"neg", "zero"} -> "1" [] c.NumConn = "pos" -> "N" [] OTHER -> U,
     \* README `KeepAlive`: N seconds; "Zero or negative value disables it. Default is 0 (disabled)"
     keepAlive  |-> IF c.KeepAlive = "pos" THEN "N" ELSE "disabled",
+    \* the same sentence at the place where it takes effect: the TCP socket ck-client dials the Cloak server with
+    \* ("the number of seconds to tell the OS to wait after no activity before sending TCP KeepAlive probes"):
+    \* SO_KEEPALIVE off, or on with an idle time of N seconds.  Observable only by running ck-client's main().
+    dialer     |-> IF c.KeepAlive = "pos" THEN "idle=N" ELSE "off",
     \* README `StreamTimeout`: "the number of seconds".  No default documented (the code's 300 s).
     timeout    |-> IF c.StreamTimeout = "pos" THEN "N" ELSE U,
     \* README `AlternativeNames`: used alongside ServerName to shuffle between server names
@@ -165,7 +169,7 @@ Done == idx = Len(Order)
 OutRange == [
   outcome |-> {"ok", "error", U}, mode |-> {"direct", "cdn", U}, browser |-> DocBrowser \cup {U},
   wsHost |-> {"origin", "remote"}, wsPath |-> {"set", "/"},
-  singleplex |-> {"yes", "no", U}, numConn |-> {"1", "N", U}, keepAlive |-> {"N", "disabled"},
+  singleplex |-> {"yes", "no", U}, numConn |-> {"1", "N", U}, keepAlive |-> {"N", "disabled"}, dialer |-> {"idle=N", "off"},
   timeout |-> {"N", U}, enc |-> {"plain", "aes-256-gcm", "aes-128-gcm", "chacha20-poly1305", "n/a", U},
   unordered |-> {"true", "false", U} ]
 
@@ -196,6 +200,8 @@ Sentences == Done =>
     /\ cfg.NumConn = "neg"  => e.singleplex = "yes"
     /\ cfg.NumConn = "pos"  => e.singleplex = "no" /\ e.numConn = "N"
     /\ (e.keepAlive = "N") <=> (cfg.KeepAlive = "pos")
+    /\ cfg.KeepAlive \in {"absent", "zero", "neg"} => e.dialer = "off"
+    /\ cfg.KeepAlive = "pos" => e.dialer = "idle=N"
     /\ cfg.StreamTimeout = "pos" => e.timeout = "N"
     /\ cfg.Transport = "direct" => e.mode = "direct"
     /\ cfg.Transport = "CDN" => e.mode = "cdn"
@@ -228,7 +234,7 @@ CaseInv == (Done /\ CaseFold) => Expected([o \in OptNames |-> Canon(o, cfg[o])])
 DependsOn == [
   outcome |-> Required \cup {"EncryptionMethod"}, mode |-> {"Transport"}, browser |-> {"BrowserSig"},
   wsHost |-> {"CDNOriginHost"}, wsPath |-> {"CDNWsUrlPath"}, singleplex |-> {"NumConn"}, numConn |-> {"NumConn"},
-  keepAlive |-> {"KeepAlive"}, timeout |-> {"StreamTimeout"}, names |-> {"AlternativeNames"},
+  keepAlive |-> {"KeepAlive"}, dialer |-> {"KeepAlive"}, timeout |-> {"StreamTimeout"}, names |-> {"AlternativeNames"},
   enc |-> {"EncryptionMethod"}, unordered |-> {"UDP"} ]
 \* (bound variables, not LET: TLC evaluates the two rows once instead of once per use)
 Separable == Done =>
